@@ -38,6 +38,35 @@ using DFS::stringutil::rtrim;
 
 namespace
 {
+  // Convert the name of a DFS file into the name of the file we
+  // create in the destination directory.  A DFS file name can
+  // contain '/', which the host system would interpret as a
+  // directory separator (so that a file called "../../x" would be
+  // created outside the destination directory).  We therefore
+  // represent '/' as "%2F" (and, to keep the mapping unambiguous,
+  // '%' as "%25").
+  string host_file_name(const string& dfs_name)
+  {
+    string result;
+    result.reserve(dfs_name.size());
+    for (const char ch : dfs_name)
+      {
+	switch (ch)
+	  {
+	  case '/':
+	    result.append("%2F");
+	    break;
+	  case '%':
+	    result.append("%25");
+	    break;
+	  default:
+	    result.push_back(ch);
+	    break;
+	  }
+      }
+    return result;
+  }
+
   bool create_inf_file(const string& name,
 		       unsigned long crc,
 		       const DFS::CatalogEntry& entry)
@@ -141,7 +170,7 @@ public:
 	  {
 	    output_basename = string(1, entry.directory()) + "." + rtrim(entry.name());
 	  }
-	const string output_body_file = dest_dir + output_basename;
+	const string output_body_file = dest_dir + host_file_name(output_basename);
 
 	std::ofstream outfile(output_body_file, std::ofstream::out);
 	if (!outfile.good())
